@@ -116,12 +116,22 @@ def compare_case(P, case, impl_lines, crash, model_lines):
             divs.append(Div("spec", case, i, il, m, s, tags, "implementation differs from the specification"))
             break
         if il != m:
-            kind = "spec" if spec_part(il) != spec_part(m) and s in ("", "*") else "model"
+            # by default the Lean model is not the property's specification: a difference between
+            # implementation and model breaks the correspondence, not (by itself) the property
+            kind = "spec" if (spec_part(il) != spec_part(m) and s in ("", "*") and getattr(P, "MODEL_IS_SPEC", False)) else "model"
             divs.append(Div(kind, case, i, il, m, s, tags, "implementation differs from the Lean model"))
             break
     else:
         if crash:
             divs.append(Div("crash", case, n - 1, "<crash after last op>", "", "", [], crash))
+    # property-level oracle over the whole case (e.g. split-invariance, reset-like-new)
+    cc = getattr(P, "check_case", None)
+    if cc is not None and not divs:
+        for (kind, idx, detail) in cc(case, impl_lines, model_lines):
+            idx = min(idx, n - 1)
+            m, s, tags, _ = parse_model_line(model_lines[idx]) if idx < len(model_lines) else ("", "", [], [])
+            divs.append(Div(kind, case, idx, impl_lines[idx] if idx < len(impl_lines) else "", m, s, tags, detail))
+            break
     return divs, alltags, cov
 
 
@@ -217,7 +227,7 @@ def main():
     if not ok_p:
         obligations_broken.append(("theorem(s) no longer check: " + "; ".join(C.failing_decls(out_p)[:8]), out_p[-2500:]))
     else:
-        hits = C.audit_sources()
+        hits = C.audit_sources(prop)
         if hits:
             obligations_broken.append(("source audit", "\n".join(hits[:20])))
         ax, problems = C.audit_axioms(prop)
